@@ -8,7 +8,7 @@ WT=/tmp/wt/$ID; OUT=$WT/out; V=/verif; DEST=$V/seeded/$ID-$N
 cd "$WT" || exit 2
 git checkout -q -- . ; git clean -fdq -e out -e target -e Cargo.lock
 place=$(head -3 "$OUT/demo$N.rs" | grep -io 'place[^;]*\.rs' | head -1 | grep -o '[A-Za-z0-9_./-]*\.rs$')
-runcmd=$(head -3 "$OUT/demo$N.rs" | grep -io 'cargo test[^;`]*' | head -1 | sed 's/ *$//')
+runcmd=$(head -3 "$OUT/demo$N.rs" | grep -io 'cargo test[^;`(]*' | head -1 | sed 's/   .*//; s/ *$//')
 [ -n "$place" ] || { echo "cannot parse placement from demo$N.rs: $(head -1 $OUT/demo$N.rs)"; exit 2; }
 [ -n "$runcmd" ] || runcmd="cargo test --offline --test $(basename $place .rs)"
 mkdir -p "$(dirname "$place")"; cp "$OUT/demo$N.rs" "$place"
